@@ -40,6 +40,7 @@ struct LifetimeRegistry {
   std::unordered_map<const void*, int> by_addr; // current incarnation at an address
   std::unordered_set<const void*> carried;      // retired in an earlier execution of this process, not yet destroyed
   int guard[LT_MAXT][LT_MAXG];
+  bool guard_by_copy[LT_MAXT][LT_MAXG] = {}; // the protection of this slot was established by copying another guard_ptr
   bool thread_exited[LT_MAXT];
   std::vector<std::vector<CellWrite>> cell_hist;
   std::string err_prop, err_kind, err_msg;
@@ -159,16 +160,28 @@ struct LifetimeRegistry {
     if (custom_deleter && r.state == N_RETIRED && r.deleter_calls != 1)
       err("C02", "destroyed-without-deleter", hz::fmt("node %" PRId64 " destroyed without its deleter being invoked", r.id));
     bool other_guarded = false;
+    int n_acq = 0, n_copy = 0, wt = -1, wg = -1;
     for (int t = 0; t < LT_MAXT; ++t)
       for (int g = 0; g < LT_MAXG; ++g) {
         int gi = guard[t][g];
-        if (gi == i)
-          err("C01", "destroyed-while-guarded",
-              hz::fmt("node %" PRId64 " (retired by T%d) destroyed by T%d while guard slot %d of T%d protects it", r.id,
-                      r.retired_by, me, g, t));
-        else if (gi >= 0 && t != me)
+        if (gi == i) {
+          if (guard_by_copy[t][g])
+            ++n_copy;
+          else
+            ++n_acq;
+          if (wt < 0 || !guard_by_copy[t][g]) {
+            wt = t;
+            wg = g;
+          }
+        } else if (gi >= 0 && t != me)
           other_guarded = true;
       }
+    if (n_acq + n_copy > 0)
+      // "-by-copy": every guard that still protects the node got its protection by copying another guard_ptr (whose own protection
+      // has ended since) - the signature of a hand-over that the reclaimer missed; otherwise a guard that acquired the node itself
+      err("C01", n_acq ? "destroyed-while-guarded" : "destroyed-while-guarded-by-copy",
+          hz::fmt("node %" PRId64 " (retired by T%d) destroyed by T%d while guard slot %d of T%d protects it (%d acquiring, %d copied guard(s))",
+                  r.id, r.retired_by, me, wg, wt, n_acq, n_copy));
     r.state = N_DESTROYED;
     if (!r.dummy && r.retire_count) {
       destroyed_in_history++;
@@ -182,11 +195,17 @@ struct LifetimeRegistry {
   void guard_clear(int slot) {
     xrt::Quiet q;
     guard[xrt::tid()][slot] = -1;
+    guard_by_copy[xrt::tid()][slot] = false;
+  }
+  bool guard_is_copy(int slot) {
+    xrt::Quiet q;
+    return guard_by_copy[xrt::tid()][slot];
   }
   // the guard operation returned and the slot now refers to addr (or nullptr)
-  void guard_set(int slot, const void* addr) {
+  void guard_set(int slot, const void* addr, bool by_copy = false) {
     xrt::Quiet q;
     int t = xrt::tid();
+    guard_by_copy[t][slot] = by_copy && addr != nullptr;
     if (!addr) {
       guard[t][slot] = -1;
       return;
@@ -206,8 +225,10 @@ struct LifetimeRegistry {
     xrt::Quiet q;
     int t = xrt::tid();
     thread_exited[t] = true;
-    for (int g = 0; g < LT_MAXG; ++g)
+    for (int g = 0; g < LT_MAXG; ++g) {
       guard[t][g] = -1;
+      guard_by_copy[t][g] = false;
+    }
   }
   void new_episode() {
     for (auto& e : thread_exited)
